@@ -165,4 +165,8 @@ def drop_emit(kind):
 
 
 def selftest(ctx, P, corruptions, n_random=40):
-    return pipeline.corruption_selftest(ctx, P, corruptions, n_random=n_random)
+    import copy
+
+    def isolated(fn):       # corruptions edit nested records: give each one its own deep copy of the recorded events
+        return lambda evs: fn(copy.deepcopy(evs))
+    return pipeline.corruption_selftest(ctx, P, [(n, isolated(f)) for n, f in corruptions], n_random=n_random)
